@@ -1,5 +1,5 @@
 \* spec mutation (W_Release = FALSE): TLC must violate Inv_C17_ManagerConsistent
-CONSTANTS NPods = 2  PodArchs = {1,3}  Layouts = {1}  Caps = {1}  PoolSets = {4}  Modes = {"fallback"}
+CONSTANTS NPods = 2  PodArchs = {1,3}  Layouts = {1}  Caps = {1}  PoolSets = {4}  Modes = {"fallback"}  GenMod = 1  GenRes = 0
 CONSTANTS W_CanReserve = TRUE  W_Release = FALSE  W_PinAll = TRUE  W_Strict = TRUE  W_KeepHeld = TRUE  W_PoolOrder = TRUE
 SPECIFICATION Spec
 INVARIANTS Inv_C17_ReservationCapacity Inv_C17_ManagerConsistent Inv_C17_PinnedToHeldIds Inv_C17_EveryResolutionWithinCapacity Inv_C17_StrictNoFallback Inv_C17_StrictClaim Inv_C17_NoPoolFallback Inv_C17_DeferJustified
